@@ -1380,7 +1380,259 @@ def _same_nested(a, b):
   return a is b
 
 
-DRIVERS = [drv_flatten_foreach, drv_mutators, drv_recombinators, drv_selectors, drv_algebra, drv_pipelines]
+# ---------------------------------------------------------------------------
+# Driver 7: weight-driven operators (selectors Proportional / Sample,
+# recombinators Sample / WeightedAverage) over the space of weight vectors.
+#
+# Oracles (statement: "every selector returns only members of its input
+# population, in the documented number"; documentation of the selectors:
+# `n` items are output, Proportional selects "proportional to the input
+# weights", Sample samples "from a weighting function"):
+#   * number of outputs == n' (int n; ceil(n * len) for float n; len for None);
+#   * members only, inputs untouched, pure/seeded determinism;
+#   * an item of weight 0 is never output;
+#   * Proportional: if every quota n * w_i / sum(w) is an integer the item
+#     counts are exactly the quotas, and a heavier item never gets fewer
+#     copies than a lighter one;
+#   * compositions of a weighted selector equal the composition of the
+#     reference list operation with the selector's own output.
+# ---------------------------------------------------------------------------
+
+W_PALETTE = [0.0, 0.01, 0.35, 0.5, 1.0, 2.0, 3.0, 10.0]
+
+
+def weight_vectors(r, size, quick):
+  """(family, weights) for populations of `size`: structured + palette."""
+  out = []
+  add = lambda fam, w: out.append((fam, [float(x) for x in w]))
+  add('uniform', [1.0] * size)
+  add('uniform-small', [0.125] * size)
+  if size >= 2:
+    add('ramp', range(1, size + 1))
+    add('ramp-desc', range(size, 0, -1))
+    add('ramp-from-0', range(size))
+    add('geometric', [2.0 ** -i for i in range(size)])
+    add('huge-ratio', [1e-9] + [1e9] * (size - 1))
+    for pos in range(size):
+      add('single-nonzero', [0.0] * pos + [2.5] + [0.0] * (size - pos - 1))
+      # One item much lighter than the (equal) rest: its quota rounds to 0
+      # while the others' quotas may all round up.
+      for tiny, big in ((0.01, 0.35), (0.05, 1.0), (1.0, 40.0)):
+        add('one-light-rest-equal', [big] * pos + [tiny] + [big] * (size - pos - 1))
+      add('one-heavy-rest-equal', [1.0] * pos + [7.0] + [1.0] * (size - pos - 1))
+      add('one-zero-rest-equal', [1.0] * pos + [0.0] + [1.0] * (size - pos - 1))
+  if size >= 3:
+    add('two-light-rest-equal', [0.02, 0.01] + [0.6] * (size - 2))
+    add('light-zero-rest-equal', [0.0, 0.01] + [0.35] * (size - 2))
+    add('alternating-zero', [float(i % 2) for i in range(size)])
+    add('two-levels', [1.0 if i % 2 else 3.0 for i in range(size)])
+  # Palette: exhaustive when small, random otherwise.
+  limit = 3 if quick else 4
+  if size <= limit:
+    for w in itertools.product(W_PALETTE, repeat=size):
+      add('palette', w)
+  else:
+    for _ in range(60 if quick else 600):
+      add('palette', [r.choice(W_PALETTE) for _ in range(size)])
+  for _ in range(10 if quick else 100):
+    add('random-float', [r.random() for _ in range(size)])
+    add('random-int', [r.randint(0, 4) for _ in range(size)])
+  return [(f, w) for f, w in out if sum(w) > 0.0]
+
+
+def rounding_class(w, n):
+  """Input class of (weights, n): do the half-up rounded quotas add up to n?"""
+  total = sum(w)
+  s = sum(math.floor(n * x / total + 0.5) for x in w)
+  return 'rounding-over' if s > n else ('rounding-under' if s < n else 'rounding-exact')
+
+
+def integral_quotas(w, n):
+  """Quotas n * w_i / sum(w) as exact integers, or None."""
+  from fractions import Fraction  # pylint: disable=g-import-not-at-top
+  fw = [Fraction(x) for x in w]
+  total = sum(fw)
+  qs = [n * x / total for x in fw]
+  if all(q.denominator == 1 for q in qs):
+    return [int(q) for q in qs]
+  return None
+
+
+W_SIGNATURES = [
+    ('xs', 'lambda xs: {w}'),
+    ('xs,step', 'lambda xs, step: {w}'),
+    ('xs,global_state', 'lambda xs, global_state: {w}'),
+    ('xs,global_state,step', 'lambda xs, global_state, step: {w}'),
+    ('by-attribute', 'lambda xs: [x.w for x in xs]'),
+]
+
+
+class WItem(Item):
+  """Population member carrying its own weight."""
+
+  def __init__(self, v, w):
+    super().__init__(v)
+    self.w = w
+
+  def __repr__(self):
+    return f'WItem({self.v}, {self.w!r})'
+
+
+def _n_values(r, size, quick):
+  ints = list(range(0, 3 * size + 3))
+  if quick and len(ints) > 9:
+    ints = ints[:6] + r.sample(ints[6:], 3)
+  out = [(repr(n), 0) for n in ints]
+  out += [(s, 0) for s in ('None', '0.0', '0.25', '0.34', '0.5', '0.75', '1.0')]
+  out += [(f'(lambda step: step * {size} + 1)', st) for st in (0, 1, 2)]
+  out += [('(lambda step: 0.25 * (step % 5))', st) for st in (1, 2, 3, 4)]
+  out.append(('50', 0))
+  return out
+
+
+def drv_weighted(tier, seed):
+  random.seed(f'c14/drv_weighted/{seed}')   # code under test falls back to the global RNG
+  quick = tier == 'quick'
+  rec = Recorder(
+      'C14', 'weight-driven operators over the space of weight vectors: documented '
+      'number, members only, zero weight never chosen, proportionality',
+      scope='selectors Proportional/Sample on populations of 1..8 items (non-DNA and DNA '
+      'with fitness as weight) x weight vectors (uniform, ramps, geometric, single non-zero, '
+      'one light/heavy/zero item at every position, two levels, 1e18 ratio; palette '
+      '{0,.01,.35,.5,1,2,3,10}^size exhaustive for size<=3, random above; random floats/ints) '
+      'x n in 0..3*size+2, fractions, None, n(step) x 5 signatures of the weights callable; '
+      'compositions (>>, +, *, [], ~) of a weighted selector; recombinators Sample/'
+      'WeightedAverage x weight vectors x 2-4 parents')
+  r = rng(seed, 'c14-weighted')
+  sizes = [1, 2, 3, 4, 5, 6, 8]
+  budget_per_vec = 5 if quick else 14
+  flat = space('flat')
+  for size in sizes:
+    vecs = weight_vectors(r, size, quick)
+    for vi, (fam, w) in enumerate(vecs):
+      nvals = _n_values(r, size, quick)
+      # Structured families get every n; palette/random vectors a sample.
+      if fam in ('palette', 'random-float', 'random-int'):
+        nvals = r.sample(nvals, min(budget_per_vec, len(nvals)))
+      use_dna = (vi % 9 == 0 and size <= 5)   # (witness length)
+      if use_dna:
+        pop = [pg.random_dna(flat, r) for _ in range(size)]
+        for d, x in zip(pop, w):
+          ebase.set_fitness(d, x)
+        psrc = pop_src('flat', pop, fitness=True)
+        sigs = [('by-fitness', 'lambda xs: [base.get_fitness(x) for x in xs]')]
+      else:
+        pop = [WItem(i, x) for i, x in enumerate(w)]
+        psrc = f'pop = {pop!r}\n'
+        sigs = [W_SIGNATURES[vi % len(W_SIGNATURES)]]
+      zero = [p for p, x in zip(pop, w) if x == 0.0]
+      for ni, (n_src, step) in enumerate(nvals):
+        npr = _nprime(eval(n_src), size, step)  # pylint: disable=eval-used
+        rcls = rounding_class(w, npr)
+        for sig, wtmpl in sigs:
+          wsrc = wtmpl.format(w=repr(w))
+          ops = [('Proportional', f'selectors.Proportional({n_src}, {wsrc})')]
+          if (vi + ni) % 4 == 0:
+            ops.append(('Sample', f'selectors.Sample({n_src}, {wsrc}, seed={seed + ni})'))
+          for cls, src in ops:
+            key = (cls, fam, size, tuple(w), n_src, step, sig)
+            wpre = HDR + psrc + f'op = {src}\nout = op(pop, step={step})\n'
+            fz = Frozen(pop)
+            try:
+              out = make(src)(pop, step=step)
+              assert isinstance(out, list), f'output is {type(out).__name__}'
+            except Exception as e:  # pylint: disable=broad-except
+              rec.case(f'selectors.{cls}.call/{rcls}', key, False,
+                       f'unexpected {type(e).__name__}: {e}', wpre)
+              continue
+            rec.case(f'selectors.{cls}.members-only', key, all(_isin(o, pop) for o in out),
+                     f'output {out!r} has non-members of the input'[:400],
+                     wpre + 'assert all(any(o is p for p in pop) for o in out)')
+            cid = (f'selectors.{cls}.documented-count/{rcls}' if cls == 'Proportional'
+                   else f'selectors.{cls}.documented-count')
+            rec.case(cid, key, len(out) == npr,
+                     f'{len(out)} outputs, documented {npr} (weights {w}, n={n_src}, step={step})',
+                     wpre + f'assert len(out) == {npr}, len(out)')
+            rec.case(f'selectors.{cls}.zero-weight-never-selected', key,
+                     not any(_isin(o, zero) for o in out),
+                     f'item with weight 0 was selected (weights {w})',
+                     wpre + f'assert not any(o is pop[i] for o in out for i in {[i for i, x in enumerate(w) if x == 0.0]})')
+            d = fz.diff()
+            rec.case(f'selectors.{cls}.inputs-unchanged', key, d is None, d,
+                     wpre + f'assert_unchanged(lambda p: ({src})(p, step={step}), pop)')
+            try:
+              out2 = make(src)(pop, step=step)
+              same = _ids(out) == _ids(out2)
+            except Exception:  # pylint: disable=broad-except
+              same = False
+            rec.case(f'selectors.{cls}.deterministic', key, same,
+                     'same operator, same input, different selection',
+                     wpre + f'assert list(map(id, out)) == list(map(id, ({src})(pop, step={step})))')
+            if cls != 'Proportional':
+              continue
+            counts = [sum(1 for o in out if o is p) for p in pop]
+            if len(out) == npr:
+              # (a wrong total is reported above, once)
+              qs = integral_quotas(w, npr)
+              if qs is not None:
+                rec.case('selectors.Proportional.exact-when-quotas-integral', key, counts == qs,
+                         f'copies per item {counts}, exact proportional shares {qs} (weights {w})',
+                         wpre + f'assert [sum(o is p for o in out) for p in pop] == {qs}')
+              bad = [(i, j) for i in range(size) for j in range(size)
+                     if w[i] > w[j] and counts[i] < counts[j]]
+              rec.case('selectors.Proportional.monotone-in-weight', key, not bad,
+                       f'copies per item {counts} for weights {w}: a heavier item got fewer copies {bad[:3]}',
+                       wpre + 'c = [sum(o is p for o in out) for p in pop]\n'
+                       f'w = {w}\nassert not [(i, j) for i in range({size}) for j in range({size}) if w[i] > w[j] and c[i] < c[j]], c')
+            # Compositions: equal to the list operation applied to the
+            # selector's own output (the selector itself is judged above).
+            if ni % 3 == 0:
+              k = 1 + (vi + ni) % 4
+              comps = [
+                  (f'({src} >> selectors.First({k}))', lambda o: o[:k]),
+                  (f'({src} >> selectors.Last({k}))', lambda o: o[len(o) - min(k, len(o)):]),
+                  (f'({src} + selectors.First(1))', lambda o: o + pop[:1]),
+                  (f'(selectors.Last(1) + {src})', lambda o: pop[-1:] + o),
+                  (f'({src} * 2)', lambda o: o + o),
+                  (f'{src}[1:{k + 1}]', lambda o: o[1:k + 1]),
+                  (f'(~{src})', lambda o: [p for p in pop if not _isin(p, o)]),
+                  (f'({src} >> base.Identity())', lambda o: list(o)),
+              ]
+              csrc, ref = comps[(vi + ni // 3) % len(comps)]
+              ckey = (csrc, fam, size, tuple(w), step)
+              cw = HDR + psrc + f'op = {csrc}\nout = op(pop, step={step})\n'
+              fz = Frozen(pop)
+              want = ref(list(out))
+              try:
+                got = make(csrc)(pop, step=step)
+                ok, msg = _ids(got) == _ids(want), f'got items {_flat_idx(got, pop)}, reference {_flat_idx(want, pop)}'
+              except Exception as e:  # pylint: disable=broad-except
+                ok, msg = False, f'unexpected {type(e).__name__}: {e}'
+              rec.case('pipeline.weighted-selector.output', ckey, ok, msg,
+                       cw + f'assert [pop.index(x) for x in out] == {_flat_idx(want, pop)}')
+              d = fz.diff()
+              rec.case('pipeline.weighted-selector.inputs-unchanged', ckey, d is None, d,
+                       cw + f'assert_unchanged(lambda p: ({csrc})(p, step={step}), pop)')
+  # Weight-driven recombinators over weight vectors (no zero-total vectors:
+  # that degenerate class is exercised, and judged, by drv_recombinators).
+  for name in ('floats', 'flat', 'multi-ds'):
+    S = space(name)
+    base_pop = parents_of(name, r, 6)
+    for k in (2, 3, 4):
+      vecs = [fw for fw in weight_vectors(r, k, True) if fw[0] != 'palette' or r.random() < (0.05 if quick else 0.3)]
+      for vi, (fam, w) in enumerate(vecs):
+        if quick and vi % 3 != (seed + k) % 3:
+          continue
+        ps = r.sample(base_pop, k)
+        for cls, src in (('Sample', f'recombinators.Sample(lambda xs: {w!r}, seed={seed})'),
+                         ('WeightedAverage', f'recombinators.WeightedAverage(lambda xs: {w!r})')):
+          exercise(rec, f'recombinators.{cls}', src, name, ps, step=vi % 2, seeded=True,
+                   min_out=1, max_out=k, family='recombinators.PointWise')
+  return rec.result()
+
+
+DRIVERS = [drv_flatten_foreach, drv_mutators, drv_recombinators, drv_selectors, drv_algebra, drv_pipelines,
+           drv_weighted]
 
 
 def replay(rec):
